@@ -19,7 +19,7 @@ LEVEL_RULE = (
 EXHAUSTIVE_SUBDOMAINS = ["8192 identity patterns x {DF5, DF21, TC28}", "FS x DR x IIS x IDS product x {DF4, DF5}", "interrogator overlays 0..127 plus every single high bit x {0,5,22,79} and random 24-bit overlays",
                          "CA 0..7, interrogator code 0..127", "guard matrix: 8 decoders x DF 0..31"]
 ASSUMPTIONS = ["description strings returned beside FS/DR/IDS/CA are not judged, only the numeric fields"]
-REQUIRED = ["id_df5", "id_df21", "id_tc28", "x0", "x1", "surv_df4", "surv_df5", "ic_ii", "ic_si", "ic_corrupt", "ca", "guards"]
+REQUIRED = ["id_df5", "id_df21", "id_tc28", "id_tc28_sparse", "x0", "x1", "surv_df4", "surv_df5", "ic_ii", "ic_si", "ic_corrupt", "ca", "guards"]
 
 
 def m_identity(ctx, case):
@@ -58,13 +58,30 @@ def m_identity(ctx, case):
                         ctx.nontrivial(("id", hx))
                     # TC28 emergency squawk: ME bits 12..24
                     me = (28 << 51) | (rng.choice((0, 1, 1, 3)) << 48) | (rng.fill(3) << 45) | (code << 32) | rng.fill(32)
-                    hx = "%028X" % bits.es_frame(rng.choice((17, 18)), rng.randrange(8), rng.fill(24), me)
+                    hx = bits.anypi(rng, "%028X" % bits.es_frame(rng.choice((17, 18)), rng.randrange(8), rng.fill(24), me))
                     r = call(adsb.emergency_squawk, hx)
                     ctx.ev()
                     if r != ("ok", exp):
                         ctx.violation("squawk-wrong-digits", frame=hx, expected=exp, observed=r[1:], api="adsb.emergency_squawk")
                     ctx.hit("id_tc28")
                     ctx.nontrivial(("id", hx))
+    # sparse / saturated TC28 frames: every subtype x emergency state against boundary codes with an all-zero or all-one rest
+    # (random rests practically never leave the remaining 32 bits empty)
+    for (b, c, d) in ((0, 0, 0), (7, 7, 7), (a, a, a), (5, 0, 0), (6, 0, 0), (7, 0, 0)):
+        for x in (0, 1):
+            code = ralt.identity_code13(a, b, c, d, x)
+            exp = "%d%d%d%d" % (a, b, c, d)
+            for st in range(8):
+                for es in range(8):
+                    for tail in (0, (1 << 32) - 1):
+                        me = (28 << 51) | (st << 48) | (es << 45) | (code << 32) | tail
+                        hx = "%028X" % bits.es_frame(17 + (es & 1), 5, 0x4840D6, me)
+                        r = call(adsb.emergency_squawk, hx)
+                        ctx.ev()
+                        if r != ("ok", exp):
+                            ctx.violation("squawk-wrong-digits", frame=hx, expected=exp, observed=r[1:], api="adsb.emergency_squawk")
+                        ctx.nontrivial(("id", hx))
+    ctx.hit("id_tc28_sparse")
     ctx.sample({"A": a, "example_code": format(ralt.identity_code13(a, 1, 2, 3, 0), "013b"), "expected": "%d123" % a})
 
 
